@@ -524,6 +524,70 @@ def sym_isfinite(v, *a, **k):
     return np._verif_isfinite(v, *a, **k) if hasattr(np, '_verif_isfinite') else math.isfinite(v)
 
 
+class SMath:
+    """stand-in for the `math` module inside a module under test: proxy-aware versions of
+    the functions whose IEEE semantics are expressible, everything else falls through to
+    the real module (and leaks -> inconclusive if handed a proxy)"""
+
+    def __getattr__(self, name):
+        return getattr(math, name)
+
+    @staticmethod
+    def floor(x): return x.__floor__() if isinstance(x, (SFloat, SInt, SRatio)) else math.floor(x)
+
+    @staticmethod
+    def ceil(x): return x.__ceil__() if isinstance(x, (SFloat, SInt)) else math.ceil(x)
+
+    @staticmethod
+    def trunc(x): return x.__trunc__() if isinstance(x, (SFloat, SInt)) else math.trunc(x)
+
+    @staticmethod
+    def fabs(x): return SFloat(z3.fpAbs(fp(x))) if isinstance(x, (SFloat, SInt)) else math.fabs(x)
+
+    @staticmethod
+    def sqrt(x):
+        if isinstance(x, (SFloat, SInt)):
+            if decide(z3.fpLT(fp(x), z3.FPVal(0.0, F64))):
+                raise ValueError('math domain error')
+            return SFloat(z3.fpSqrt(RNE, fp(x)))
+        return math.sqrt(x)
+
+    @staticmethod
+    def isfinite(x): return SBool(fin(x.t)) if isinstance(x, SFloat) else math.isfinite(x)
+
+    @staticmethod
+    def isnan(x): return SBool(z3.fpIsNaN(x.t)) if isinstance(x, SFloat) else math.isnan(x)
+
+    @staticmethod
+    def isinf(x): return SBool(z3.fpIsInf(x.t)) if isinstance(x, SFloat) else math.isinf(x)
+
+    @staticmethod
+    def copysign(x, y):
+        if isinstance(x, (SFloat, SInt)) or isinstance(y, (SFloat, SInt)):
+            a, b = fp(x), fp(y)
+            return SFloat(z3.If(z3.fpIsNegative(b), z3.fpNeg(z3.fpAbs(a)), z3.fpAbs(a)))
+        return math.copysign(x, y)
+
+    @staticmethod
+    def nextafter(x, y):
+        if isinstance(x, SFloat) and isinstance(y, float) and math.isinf(y):
+            # next representable double towards +inf / -inf (finite x): step the IEEE bit pattern
+            up = y > 0
+            bits = z3.fpToIEEEBV(x.t)
+            one = z3.BitVecVal(1, 64)
+            pos = z3.Not(z3.fpIsNegative(x.t))
+            away = z3.fpBVToFP(bits + one, F64)
+            toward = z3.fpBVToFP(bits - one, F64)
+            tiny = z3.fpBVToFP(z3.BitVecVal(1, 64), F64)
+            if up:
+                r = z3.If(z3.fpIsZero(x.t), tiny, z3.If(pos, away, toward))
+            else:
+                r = z3.If(z3.fpIsZero(x.t), z3.fpNeg(tiny), z3.If(pos, toward, away))
+            Ctx.cur.guards.append(fin(x.t))
+            return SFloat(r)
+        return math.nextafter(x, y)
+
+
 def install_numpy_stubs():
     """np.isfinite / np.sign / np.floor / np.ceil / np.trunc accept proxies (scalar contracts)."""
     import numpy as np
@@ -571,6 +635,9 @@ def install_numpy_stubs():
 
 
 # ---- exploration ------------------------------------------------------------
+
+PROXY_NAMES = ['SInt', 'SFloat', 'SStr', 'SBool', 'SRatio', 'SRounded', 'SDate', 'STimedelta', "'Num'", 'Opaque']
+
 
 class PathResult:
     def __init__(self, trace, outcome, verdict, seconds, model=None, pc=None, note=''):
@@ -680,7 +747,9 @@ def explore(fn, post, assumptions, timeout_s=120, max_paths=400, use_cvc5=False,
         except Exception as e:          # the code under test raised: an outcome like any other
             out = ('exc', e)
         leak = None
-        if out[0] == 'exc' and isinstance(out[1], TypeError) and ('SInt' in str(out[1]) or 'SFloat' in str(out[1]) or 'SStr' in str(out[1]) or 'SBool' in str(out[1])):
+        if out[0] == 'exc' and isinstance(out[1], (TypeError, AttributeError)) and any(
+                n in str(out[1]) for n in PROXY_NAMES):
+            # an operation the proxies do not model: the path cannot be encoded (inconclusive)
             leak = str(out[1])
         if c.leaks:
             leak = c.leaks[0]
